@@ -315,3 +315,82 @@ def emit_puml(sp, style=0):
     tail = tail.replace('inline std::string idmap(){ return "__IDMAP__"; }',
                         'inline std::string idmap(){\n#if CFG >= 5\n  return "%s";\n#else\n  return "%s";\n#endif\n}' % (idm('mp11'), idm('back')))
     return '\n'.join(w) + tail
+
+
+# ------------------------------------------------------------------------------------------------ eUML front-end
+def guard_expr_euml(g):
+    if g[0] == 'g':
+        return 'g%d' % g[1]
+    if g[0] == 'not':
+        return '!(%s)' % guard_expr_euml(g[1])
+    if g[0] == 'and':
+        return '(%s && %s)' % (guard_expr_euml(g[1]), guard_expr_euml(g[2]))
+    return '(%s || %s)' % (guard_expr_euml(g[1]), guard_expr_euml(g[2]))
+
+
+def emit_euml(sp):
+    """eUML transition-table expression (back / back11 only; backmp11 dropped eUML)"""
+    m = sp['root']
+    sidx = {name: i for i, (name, st, mm) in enumerate(S.all_states(sp))}
+    sidx['Root'] = len(sidx)
+    w = []
+    w.append('// generated (eUML front-end) from spec %s' % sp.get('id'))
+    w.append('#define BOOST_MPL_CFG_NO_PREPROCESSED_HEADERS')
+    w.append('#define BOOST_MPL_LIMIT_VECTOR_SIZE 30')
+    w.append('#define BOOST_MPL_LIMIT_MAP_SIZE 30')
+    w.append('#define FUSION_MAX_VECTOR_SIZE 20')
+    w.append('#include "rt.hpp"')
+    w.append('#include <boost/msm/front/euml/euml.hpp>')
+    w.append('namespace gen {')
+    w.append('using namespace boost::msm::front::euml;')
+    w.append('BOOST_MSM_EUML_DECLARE_ATTRIBUTE(int, pval)')
+    w.append('BOOST_MSM_EUML_ATTRIBUTES((attributes_ << pval), ev_attrs)')
+    for e in sp['events']:
+        w.append('BOOST_MSM_EUML_EVENT_WITH_ATTRIBUTES(%s, ev_attrs)' % e['name'])
+        w.append('inline std::string rt_describe(const %s_helper& e){ return "%s#" + std::to_string(e.get_attribute(pval)); }' % (e['name'], e['name']))
+    for f in sp.get('flags', []):
+        w.append('BOOST_MSM_EUML_FLAG(%s)' % f)
+    atoms, acts = set(), set()
+    for r in m['table']:
+        atoms.update(S.guard_atoms(r.get('guard')))
+        acts.update(r.get('actions') or [])
+    for n in sorted(atoms):
+        w.append('BOOST_MSM_EUML_ACTION(g%d){ template<class FSM,class EVT,class SS,class TS> bool operator()(EVT const& e, FSM& f, SS&, TS&){ return rt::guard(%d,e,f); } };' % (n, n))
+    for n in sorted(acts):
+        w.append('BOOST_MSM_EUML_ACTION(a%d){ template<class FSM,class EVT,class SS,class TS> void operator()(EVT const& e, FSM& f, SS&, TS&){ rt::action(%d,e,f); } };' % (n, n))
+    for name in S.state_order(m) + ['Root']:
+        w.append('BOOST_MSM_EUML_ACTION(en_%s){ template<class EVT,class FSM,class ST> void operator()(EVT const& e, FSM& f, ST& s){ rt::entry(%d,"%s",&s,e,f); } };' % (name, sidx[name], name))
+        w.append('BOOST_MSM_EUML_ACTION(ex_%s){ template<class EVT,class FSM,class ST> void operator()(EVT const& e, FSM& f, ST& s){ rt::exit_(%d,"%s",&s,e,f); } };' % (name, sidx[name], name))
+    for name in S.state_order(m):
+        st = m['states'][name]
+        cfg = 'configure_ << ' + ' << '.join(st['flags']) if st.get('flags') else 'configure_ << no_configure_'
+        macro = 'BOOST_MSM_EUML_TERMINATE_STATE' if st['kind'] == 'terminate' else 'BOOST_MSM_EUML_STATE'
+        w.append('%s((en_%s, ex_%s, attributes_ << no_attributes_, %s), %s)' % (macro, name, name, cfg, name))
+    rows = []
+    for r in m['table']:
+        src, tgt, ev = r['src'], r.get('tgt'), r['ev']
+        left = ('%s == %s' % (tgt, src)) if tgt is not None else src
+        if ev is not None:
+            left += ' + %s' % ev
+        if r.get('guard') is not None:
+            left += ' [%s]' % guard_expr_euml(r['guard'])
+        a = r.get('actions') or []
+        if len(a) == 1:
+            left += ' / a%d' % a[0]
+        elif len(a) > 1:
+            left += ' / (%s)' % ', '.join('a%d' % x for x in a)
+        rows.append('  ' + left)
+    w.append('BOOST_MSM_EUML_TRANSITION_TABLE((')
+    w.append(',\n'.join(rows))
+    w.append('), transition_table)')
+    w.append('BOOST_MSM_EUML_ACTION(NoTr){ template<class FSM,class EVT> void operator()(EVT const& e, FSM& f, int s){ rt::no_transition("Root", e, f, s); } };')
+    w.append('BOOST_MSM_EUML_DECLARE_STATE_MACHINE((transition_table, init_ << %s, en_Root, ex_Root, attributes_ << no_attributes_, configure_ << no_configure_, NoTr), Root_)'
+             % ' << '.join(reg[0] for reg in m['regions']))
+    w.append('typedef RT_BACK(Root_, boost::msm::back::NoHistory) Root;')
+    from .static import documented_ids, explicit_creation_list
+    gone = set(explicit_creation_list(m))
+    m2 = dict(m, regions=[[s for s in reg if s not in gone] for reg in m['regions']])
+    idm = lambda d: ''.join('Root:%s=%d;' % (s, i) for s, i in documented_ids(m2, d).items())
+    tail = common_tail(sp, lambda n: n + '_helper', '__IDMAP__', lambda f: 'BOOST_MSM_EUML_FLAG_NAME(%s)' % f)
+    tail = tail.replace('inline std::string idmap(){ return "__IDMAP__"; }', 'inline std::string idmap(){ return "%s"; }' % idm('back'))
+    return '\n'.join(w) + tail
